@@ -144,7 +144,8 @@ def coq_cfg(cfg):
         'true' if cfg.get('slimsc') else 'false')
 
 
-WS_TEXTS = ['  x  ', ' a\tb ', 'line1\nline2', '\r\n x \r\n', 'x', ' ', '\n', '  lead', 'trail  ', 'a  b', '\ttab\t', 'x\n\n  y']
+WS_TEXTS = ['  x  ', ' a\tb ', 'line1\nline2', '\r\n x \r\n', 'x', ' ', '\n', '  lead', 'trail  ', 'a  b', '\ttab\t', 'x\n\n  y',
+            '\n      Hello world\n    ', 'end  \n', '\n\tx', ' \n y']
 
 
 def gen_doc(rng, deep=False):
